@@ -1,5 +1,7 @@
 //! Glue shared by the property binaries: conversions between the reference models'
 //! vocabulary and mila's public API, and observation of mila objects through that API.
 
+pub mod arch;
+pub mod binfam;
 pub mod glue;
 pub mod lzfam;
